@@ -13,7 +13,8 @@ Every instance is decided by the compiler: the probe prints, one line per instan
       FlatSet backing with a non relocatable comparator)  [SmallSet: C++17 and later, N <= 64].
 
 A field that is not legal for the instance (SmallVector needs N < max(size_type), FixedCapacityVector N >= 1,
-SmallSet 1 <= N <= 64 and C++17) is printed as -1.
+SmallSet 1 <= N <= 64 and C++17) is printed as -1; so are the N-dependent set fields of the instances for which
+sets_on() is false (the set templates are the most expensive ones).
 
 Usage as a script:  c17probe_gen.py <outdir> [quick|thorough] [nshards]   (writes c17probe_<i>.cpp, prints JSON)
 """
@@ -74,6 +75,13 @@ def fcv_legal(N):
 
 def ss_legal(N):
     return 1 <= N <= 64
+
+
+def sets_on(key):
+    """Whether the N-dependent set instantiations (FlatSet over SmallVector / FixedCapacityVector, SmallSet) are probed
+    for this instance: they are the most expensive templates, so only small N with the default size type."""
+    kind, s, a, N, st = key
+    return (st == "u32" and (N <= 10 or N in (40, 64, 65))) or N <= 2
 
 
 def matrix(tier="quick"):
@@ -186,6 +194,7 @@ template <class T> void pT() {
               TR<std::pair<T, T> >(), TR<std::pair<T, int> >(), TR<std::pair<T, NT> >(), TR<std::pair<TD, T> >(),
               TR<std::pair<std::pair<T, int>, T> >(), TR<std::pair<NT, NT> >());
 }
+using std::swap;
 template <class V> struct NE {
   static constexpr bool mc = noexcept(V(std::declval<V &&>()));
   static constexpr bool ma = noexcept(std::declval<V &>() = std::declval<V &&>());
@@ -275,9 +284,10 @@ void row(long long id, int kind, int w) {
 
 def row_call(idx, key):
     kind, s, a, N, st = key
-    return ("  probe::row<probe::E<%d, %d, %d>, %s, %dULL, %s, %s, %s>(%d, %d, %d);" %
-            (s, a, KIND_INDEX[kind], ST[st][1], N, "true" if sv_legal(N, st) else "false",
-             "true" if fcv_legal(N) else "false", "true" if ss_legal(N) else "false", idx, KIND_INDEX[kind], ST[st][2]))
+    b = lambda x: "true" if x else "false"
+    return ("  probe::row<probe::E<%d, %d, %d>, %s, %dULL, %s, %s, %s, %s>(%d, %d, %d);" %
+            (s, a, KIND_INDEX[kind], ST[st][1], N, b(sv_legal(N, st)), b(fcv_legal(N)), b(ss_legal(N)), b(sets_on(key)),
+             idx, KIND_INDEX[kind], ST[st][2]))
 
 
 def generate(rows, nshards):
